@@ -529,7 +529,6 @@ func FindMutant(seed []byte, o MutOpt, desc string) []byte {
 	return out
 }
 
-
 // ---- dictionary of object identifiers for the relabelling edits
 
 type oidEntry struct {
@@ -537,28 +536,28 @@ type oidEntry struct {
 	enc    []byte
 }
 
+// every OBJECT IDENTIFIER literal that occurs in the non-test sources of the pinned repository (collected with grep,
+// 113 entries), so that each identifier the library knows how to name is offered in every OID position of every seed
 var oidDict = buildOIDDict([]string{
-	// ShangMi
-	"1.2.156.10197.1.301", "1.2.156.10197.1.301.1", "1.2.156.10197.1.301.3", "1.2.156.10197.1.501", "1.2.156.10197.1.401", "1.2.156.10197.1.401.2",
-	"1.2.156.10197.1.104", "1.2.156.10197.1.104.1", "1.2.156.10197.1.104.2", "1.2.156.10197.1.104.8", "1.2.156.10197.1.302", "1.2.156.10197.1.302.1", "1.2.156.10197.1.302.3",
-	"1.2.156.10197.6.1.4.2.1", "1.2.156.10197.6.1.4.2.2", "1.2.156.10197.6.1.4.2.3", "1.2.156.10197.6.1.4.2.4", "1.2.156.10197.6.1.4.2.5",
-	"1.2.156.10197.6.4.1.5.1", "1.2.156.10197.6.4.1.5.2",
-	// EC
-	"1.2.840.10045.2.1", "1.2.840.10045.3.1.7", "1.3.132.0.33", "1.3.132.0.34", "1.3.132.0.35",
-	"1.2.840.10045.4.1", "1.2.840.10045.4.3.2", "1.2.840.10045.4.3.3", "1.2.840.10045.4.3.4",
-	// RSA
-	"1.2.840.113549.1.1.1", "1.2.840.113549.1.1.5", "1.2.840.113549.1.1.10", "1.2.840.113549.1.1.11", "1.2.840.113549.1.1.12", "1.2.840.113549.1.1.13",
-	// Edwards / Montgomery
-	"1.3.101.110", "1.3.101.112",
-	// digests
-	"1.3.14.3.2.26", "2.16.840.1.101.3.4.2.1", "2.16.840.1.101.3.4.2.2", "2.16.840.1.101.3.4.2.3", "2.16.840.1.101.3.4.2.4",
-	// PKCS#7 content types and attributes
-	"1.2.840.113549.1.7.1", "1.2.840.113549.1.7.2", "1.2.840.113549.1.7.3", "1.2.840.113549.1.7.4", "1.2.840.113549.1.7.6",
-	"1.2.840.113549.1.9.3", "1.2.840.113549.1.9.4", "1.2.840.113549.1.9.5",
-	// PKCS#5 / content ciphers / PRFs
-	"1.2.840.113549.1.5.12", "1.2.840.113549.1.5.13", "1.2.840.113549.1.5.3", "1.2.840.113549.1.5.10", "1.3.6.1.4.1.11591.4.11",
-	"1.2.840.113549.3.7", "1.3.14.3.2.7", "2.16.840.1.101.3.4.1.2", "2.16.840.1.101.3.4.1.6", "2.16.840.1.101.3.4.1.42", "2.16.840.1.101.3.4.1.46",
-	"1.2.840.113549.2.7", "1.2.840.113549.2.9", "1.2.840.113549.2.11",
+	"1.2.156.10197.1.104", "1.2.156.10197.1.104.1", "1.2.156.10197.1.104.2", "1.2.156.10197.1.104.8", "1.2.156.10197.1.301", "1.2.156.10197.1.301.1",
+	"1.2.156.10197.1.301.3", "1.2.156.10197.1.302", "1.2.156.10197.1.302.1", "1.2.156.10197.1.302.3", "1.2.156.10197.1.401", "1.2.156.10197.1.401.2",
+	"1.2.156.10197.1.501", "1.2.156.10197.1.502", "1.2.156.10197.1.503", "1.2.156.10197.6.1.4.2.1", "1.2.156.10197.6.1.4.2.2",
+	"1.2.156.10197.6.1.4.2.3", "1.2.156.10197.6.1.4.2.4", "1.2.156.10197.6.1.4.2.5", "1.2.156.10197.6.1.4.4.1", "1.2.156.10197.6.1.4.4.2",
+	"1.2.156.10197.6.1.4.4.3", "1.2.156.10197.6.1.4.4.4", "1.2.156.10197.6.1.4.4.5", "1.2.156.10197.6.4.1.5.1", "1.2.156.10197.6.4.1.5.2",
+	"1.2.840.10040.4.1", "1.2.840.10040.4.3", "1.2.840.10045.2.1", "1.2.840.10045.3.1.7", "1.2.840.10045.4.1", "1.2.840.10045.4.3.2",
+	"1.2.840.10045.4.3.3", "1.2.840.10045.4.3.4", "1.2.840.113549.1.1.1", "1.2.840.113549.1.1.10", "1.2.840.113549.1.1.11", "1.2.840.113549.1.1.12",
+	"1.2.840.113549.1.1.13", "1.2.840.113549.1.1.2", "1.2.840.113549.1.1.4", "1.2.840.113549.1.1.5", "1.2.840.113549.1.1.8", "1.2.840.113549.1.5.1",
+	"1.2.840.113549.1.5.10", "1.2.840.113549.1.5.11", "1.2.840.113549.1.5.12", "1.2.840.113549.1.5.13", "1.2.840.113549.1.5.2", "1.2.840.113549.1.5.3",
+	"1.2.840.113549.1.5.4", "1.2.840.113549.1.5.6", "1.2.840.113549.1.7.1", "1.2.840.113549.1.7.2", "1.2.840.113549.1.7.3", "1.2.840.113549.1.7.4",
+	"1.2.840.113549.1.7.5", "1.2.840.113549.1.7.6", "1.2.840.113549.1.9.14", "1.2.840.113549.1.9.3", "1.2.840.113549.1.9.4", "1.2.840.113549.1.9.5",
+	"1.2.840.113549.1.9.63", "1.2.840.113549.1.9.7", "1.2.840.113549.2.10", "1.2.840.113549.2.11", "1.2.840.113549.2.12", "1.2.840.113549.2.13",
+	"1.2.840.113549.2.7", "1.2.840.113549.2.8", "1.2.840.113549.2.9", "1.2.840.113549.3.7", "1.3.101.110", "1.3.101.112", "1.3.132.0.33",
+	"1.3.132.0.34", "1.3.132.0.35", "1.3.14.3.2.26", "1.3.14.3.2.29", "1.3.14.3.2.7", "1.3.6.1.4.1.11591.4.11", "1.3.6.1.4.1.311.10.3.3",
+	"1.3.6.1.4.1.311.2.1.22", "1.3.6.1.4.1.311.61.1.1", "1.3.6.1.5.5.7.1.1", "1.3.6.1.5.5.7.3.1", "1.3.6.1.5.5.7.3.2", "1.3.6.1.5.5.7.3.3",
+	"1.3.6.1.5.5.7.3.4", "1.3.6.1.5.5.7.3.5", "1.3.6.1.5.5.7.3.6", "1.3.6.1.5.5.7.3.7", "1.3.6.1.5.5.7.3.8", "1.3.6.1.5.5.7.3.9", "1.3.6.1.5.5.7.48.1",
+	"1.3.6.1.5.5.7.48.2", "2.16.840.1.101.3.4.1.2", "2.16.840.1.101.3.4.1.22", "2.16.840.1.101.3.4.1.26", "2.16.840.1.101.3.4.1.42",
+	"2.16.840.1.101.3.4.1.46", "2.16.840.1.101.3.4.1.6", "2.16.840.1.101.3.4.2.1", "2.16.840.1.101.3.4.2.2", "2.16.840.1.101.3.4.2.3",
+	"2.16.840.1.101.3.4.3.2", "2.16.840.1.113730.4.1", "2.3.4.5.6.7", "2.4.1.2.3", "2.5.29.14", "2.5.29.35", "2.5.29.37.0",
 })
 
 func buildOIDDict(dotted []string) []oidEntry {
